@@ -61,6 +61,10 @@ CLAIMED = {
             "TLC explores every sequence of rule-file and root edits with valid and invalid arguments up to the bound and proves well-formedness inductive over accepted edits and refused edits without effect; one history per distinct state is replayed on tufv02 and tufv01 objects, and TLC checks after every edit the acceptance, the well-formedness of the observed metadata and the equality of the live, reloaded and migrated projections.",
             "Rule-name uniqueness across files, propagation directives and controller/network edits are not modelled yet.",
             "DESIGN.md section 4 C13"),
+    "C20": ("Sandbox.tla, MC_Sandbox.tla, Trace_Sandbox.tla",
+            "TLC checks that the construction sequence of the sandbox (open libraries, remove globals and members, protect tables, register APIs) leaves only pure library members, inert data and registered APIs reachable, with every library table protected, and that omitting any single effective step breaks this; the real environment is walked from the Go side and compared with the model's closure, and every program of the escape / table-write / non-termination / return-value grammar is rendered to Lua and run through RunScript with a 1 s timeout under a hard outer deadline, TLC judging denial, deadline and exit code.",
+            "Purity of allow-listed functions trusted; hook selection per principal not yet exercised; needs the verif accessor for the interpreter state.",
+            "DESIGN.md section 4 C20"),
 }
 
 NOT_YET = {
